@@ -17,7 +17,7 @@ ID = "C16"
 
 LINKS = ["child", "child", "children", "children", "table"]
 LINKS_SET = LINKS + ["group", "group"]
-ALLOWED = ("set_child", "set_children", "list", "set_table", "dict", "set_group", "set")
+ALLOWED = ("add_tagged", "set_child", "set_children", "list", "set_table", "dict", "set_group", "set")
 LIST_OK = ("append", "insert", "extend", "iadd", "delitem_i", "delitem_s", "setitem_i",
            "setitem_s", "pop", "pop_last", "clear", "reverse")
 DICT_OK = ("setitem", "delitem", "pop", "pop_default", "update_map", "update_pairs", "popitem",
@@ -35,6 +35,8 @@ def freshen(x):
         if "n" in x and set(x) <= {"n", "t", "cur"}:
             # ("cur" names a current member of the very set that is operated on: no sharing)
             d = {"fresh": 1}
+            if x["n"] % 4 == 0:
+                d["tagged"] = 1      # an instance trait with metadata, added beforehand
             if "cur" in x:
                 d["cur"] = x["cur"]
             if "t" in x:
@@ -46,20 +48,23 @@ def freshen(x):
     return x
 
 
-def legacy_name(steps):
+def legacy_name(steps, final="value"):
     s = ""
     for name, notify in steps:
         s += name + ("." if notify else ":")
-    return s + "value"
+    return s + final
 
 
-def observe_ast(steps):
+def observe_ast(steps, final="value"):
     b = []
     for name, notify in steps:
         b.append(["t", name, notify])
         if name in ("children", "table", "group"):
             b.append(["items", None, notify])
-    b.append(["t", "value", True])
+    if final == "+tag":
+        b.append(["meta", "tag", True])
+    else:
+        b.append(["t", "value", True])
     return [b]
 
 
@@ -129,6 +134,10 @@ class Prop:
             # (observation O4: the statement does not say which is right)
             arity = c.choice([1, 2])
         remove_at = c.choice([None, None, None, c.randrange(nops + 1)])
+        # the final attribute: 'value', or every trait that carries the metadata 'tag'
+        # ('+tag' in both systems: the class trait 'label' and, on some objects, an
+        # instance trait added before or after they were put into the graph)
+        final = "+tag" if (arity not in (1, 2) and c.random() < 0.3) else "value"
         ops = []
         while len(ops) < nops:
             x = r.random()
@@ -141,6 +150,9 @@ class Prop:
             if x < 0.15 and x >= 0.12:
                 # a replaced container mutated through an alias (fresh items only)
                 ops.append(freshen(G.gen_detached_op(r, 4)))
+                continue
+            if final == "+tag" and 0.15 <= x < 0.22:
+                ops.append({"k": "add_tagged", "o": r.randrange(12)})
                 continue
             if x < 0.12:
                 # 'del node.trait': the link falls back to its default
@@ -167,7 +179,8 @@ class Prop:
             ops.append(op)
         return {"prop": ID, "seed": seed,
                 "config": {"steps": steps, "arity": arity, "remove_at": remove_at,
-                           "eq_nodes": eq_nodes, "small_values": c.random() < 0.5},
+                           "eq_nodes": eq_nodes, "small_values": c.random() < 0.5,
+                           "final": final},
                 "ops": ops}
 
     def execute(self, trace, env):
@@ -183,13 +196,20 @@ class Prop:
         world.detached_enabled = True
         self._world = world
         routed = []
-        oapi.push_exception_handler(lambda ev: routed.append("observe"), reraise_exceptions=False)
-        push_exception_handler(lambda o, n, old, new: routed.append("legacy"),
+        import sys as _sys
+
+        def _what():
+            e = _sys.exc_info()[1]
+            return "%s: %s" % (type(e).__name__, e) if e is not None else "?"
+        oapi.push_exception_handler(lambda ev: routed.append("observe (%s)" % _what()),
+                                    reraise_exceptions=False)
+        push_exception_handler(lambda o, n, old, new: routed.append("legacy (%s)" % _what()),
                                reraise_exceptions=False)
         self._pushed = True
         steps = cfg["steps"]
-        name = legacy_name(steps)
-        ast = observe_ast(steps)
+        final = cfg.get("final", "value")
+        name = legacy_name(steps, final)
+        ast = observe_ast(steps, final)
         L, O = [], []
         hl = mk_legacy(cfg["arity"], L, env)
 
@@ -263,33 +283,39 @@ class Prop:
                     if n is None:       # released by a drop op and gone by now
                         continue
                     m = world.model(uid)
-                    del L[:], O[:]
-                    v = world.fresh_value()
-                    if cfg.get("small_values"):
-                        # few distinct values: a replaced object and its replacement
-                        # often hold the same final value
-                        cur = m.value if isinstance(m.value, int) else 0
-                        v = 0 if cur != 0 else 1
-                    _, e = sut(setattr, n, "value", v)
-                    if e is not None:
-                        raise Violation("C16.probe-raised", "N%d.value = %d raised %r"
-                                        % (uid, v, e), i)
-                    m.value = v
-                    want = G.tkey(m, "value") in notifying
-                    l, o = bool(L), bool(O)
-                    env.oracle_evals += 1
-                    if not (l == o == want):
-                        raise Violation("C16.probe",
-                                        "after %s: changing N%d.value under %r: legacy %s, observe "
-                                        "%s, model says N%d is %s"
-                                        % (describe(op), uid, name, called(l), called(o), uid,
-                                           "reachable" if want else
-                                           ("unregistered" if not registered else "not reachable")),
-                                        i)
-                    if want:
-                        agree_yes += 1
-                    else:
-                        agree_no += 1
+                    for pname in (("value",) if final == "value" else ("value", "label", "tagged")):
+                        if pname not in m.traits():
+                            continue
+                        del L[:], O[:]
+                        v = world.fresh_value()
+                        if cfg.get("small_values") and pname != "label":
+                            # few distinct values: a replaced object and its replacement
+                            # often hold the same final value
+                            cur = m.get(pname) if isinstance(m.get(pname), int) else 0
+                            v = 0 if cur != 0 else 1
+                        if pname == "label":
+                            v = "s%d" % v
+                        _, e = sut(setattr, n, pname, v)
+                        if e is not None:
+                            raise Violation("C16.probe-raised", "N%d.%s = %r raised %r"
+                                            % (uid, pname, v, e), i)
+                        setattr(m, pname, v)
+                        want = G.tkey(m, pname) in notifying
+                        l, o = bool(L), bool(O)
+                        env.oracle_evals += 1
+                        if not (l == o == want):
+                            raise Violation("C16.probe",
+                                            "after %s: changing N%d.%s under %r: legacy %s, observe "
+                                            "%s, model says N%d is %s"
+                                            % (describe(op), uid, pname, name, called(l), called(o),
+                                               uid, "reachable" if want else
+                                               ("unregistered" if not registered
+                                                else "not reachable (or the trait not matched)")),
+                                            i)
+                        if want:
+                            agree_yes += 1
+                        else:
+                            agree_no += 1
             env.end_op()
             env.token(k, op.get("op", {}).get("k") if isinstance(op.get("op"), dict) else None,
                       tuple(pattern))
